@@ -135,6 +135,7 @@ func (v *vnode) closeReplica() {
 // are rebuilt on the same directories (process restart).
 func (r *nodeRun) consume(c *cluster, n *vnode, upto int, restarts bool) int {
 	total := 0
+	var seenOff map[uint64]bool
 	for iter := 0; iter < 10000; iter++ {
 		max := 0
 		switch r.rng.Intn(4) {
@@ -160,6 +161,17 @@ func (r *nodeRun) consume(c *cluster, n *vnode, upto int, restarts bool) int {
 			return total
 		}
 		total += len(evs)
+		// a reader moves forward: the poll loop hands every line of the log to the node once (what it saves as its position
+		// is the position after the last line it was handed - whatever lines the storage left out on the way)
+		for _, e := range evs {
+			if seenOff == nil {
+				seenOff = map[uint64]bool{}
+			}
+			if seenOff[e.Offset] {
+				r.mon(fmt.Sprintf("C08 each_line_once: the poll loop of %s handed it the message at offset %d (%s) a second time, with no restart and no reset in between", n.name, e.Offset, e.Event))
+			}
+			seenOff[e.Offset] = true
+		}
 		if restarts && r.rng.Intn(5) == 0 {
 			mute, filter, rewrite := n.stg.mute, n.stg.filter, n.stg.rewrite
 			n.ldb.VerifClose()
@@ -441,6 +453,16 @@ func (r *nodeRun) c08Checks(c *cluster, obs *vnode, rounds []string) {
 				st.C08Compared++
 				if p, q := publicProj(g, ""), publicProj(rep, ""); p != q {
 					r.mon(fmt.Sprintf("C08 reset_replay: reset with an ignore list differs from a fresh node with the same ignore list %s", firstDiff(q, p)))
+				}
+				// ... and both have read the whole log: their position is the one after its last line
+				r.consume(c, g, 0, false)
+				if now := c.boardMessages(); len(now) > 0 {
+					last := now[len(now)-1].Offset + 1
+					for _, nd := range []*vnode{g, rep} {
+						if off, err := nd.st.LoadOffset(); err != nil || off != last {
+							r.mon(fmt.Sprintf("C08 reset_replay: after reading the whole log of %d lines with an ignore list %s has saved position %d (%v)", last, nd.name, off, err))
+						}
+					}
 				}
 				rep.closeReplica()
 			}
